@@ -77,6 +77,37 @@ static inline f64 U2F64(u64 u) { union { f64 f; u64 u; } x; x.u = u; return x.f;
 #define LL_FPTOSI(U, S, W, f) ((((f) == (f)) && (f) >= -0x1p##W * 0.5 && (f) < 0x1p##W * 0.5) ? (U)(S)(f) : (U)nondet_u64())
 #define LL_FPTOUI(U, W, f) ((((f) == (f)) && (f) > -1.0 && (f) < 0x1p##W) ? (U)(f) : (U)nondet_u64())
 
+/* always-interpreted forms (an operand is a compile-time constant: address arithmetic, scaling by 0.5, 2^k, ...) */
+#define CMUL_u8(a, b) ((u8)((u32)(a) * (u32)(b)))
+#define CMUL_u16(a, b) ((u16)((u32)(a) * (u32)(b)))
+#define CMUL_u32(a, b) ((u32)((u32)(a) * (u32)(b)))
+#define CMUL_u64(a, b) ((u64)((u64)(a) * (u64)(b)))
+#define LL_CDIVOK_S(W, a, b) ((b) != 0 && !((u##W)(a) == ((u##W)1 << (W - 1)) && (u##W)(b) == (u##W)~(u##W)0))
+#define LL_CUDIV(W, a, b) ((b) != 0 ? (u##W)((u##W)(a) / (u##W)(b)) : nondet_u##W())
+#define LL_CUREM(W, a, b) ((b) != 0 ? (u##W)((u##W)(a) % (u##W)(b)) : nondet_u##W())
+#define LL_CSDIV(W, a, b) (LL_CDIVOK_S(W, a, b) ? (u##W)((s##W)(a) / (s##W)(b)) : nondet_u##W())
+#define LL_CSREM(W, a, b) (LL_CDIVOK_S(W, a, b) ? (u##W)((s##W)(a) % (s##W)(b)) : nondet_u##W())
+#define CUDIV_u8(a, b) LL_CUDIV(8, a, b)
+#define CUDIV_u16(a, b) LL_CUDIV(16, a, b)
+#define CUDIV_u32(a, b) LL_CUDIV(32, a, b)
+#define CUDIV_u64(a, b) LL_CUDIV(64, a, b)
+#define CUREM_u8(a, b) LL_CUREM(8, a, b)
+#define CUREM_u16(a, b) LL_CUREM(16, a, b)
+#define CUREM_u32(a, b) LL_CUREM(32, a, b)
+#define CUREM_u64(a, b) LL_CUREM(64, a, b)
+#define CSDIV_u8(a, b) LL_CSDIV(8, a, b)
+#define CSDIV_u16(a, b) LL_CSDIV(16, a, b)
+#define CSDIV_u32(a, b) LL_CSDIV(32, a, b)
+#define CSDIV_u64(a, b) LL_CSDIV(64, a, b)
+#define CSREM_u8(a, b) LL_CSREM(8, a, b)
+#define CSREM_u16(a, b) LL_CSREM(16, a, b)
+#define CSREM_u32(a, b) LL_CSREM(32, a, b)
+#define CSREM_u64(a, b) LL_CSREM(64, a, b)
+#define CFMUL_f32(a, b) ((f32)((a) * (b)))
+#define CFMUL_f64(a, b) ((f64)((a) * (b)))
+#define CFDIV_f32(a, b) ((f32)((a) / (b)))
+#define CFDIV_f64(a, b) ((f64)((a) / (b)))
+
 /* ------------------------------------------------------------------------------------------------
  * multiplication / division / fma / sqrt: interpretation modes */
 #ifdef LL_MODE_UF
@@ -84,11 +115,18 @@ u8 __CPROVER_uninterpreted_mul8(u8, u8);
 u16 __CPROVER_uninterpreted_mul16(u16, u16);
 u32 __CPROVER_uninterpreted_mul32(u32, u32);
 u64 __CPROVER_uninterpreted_mul64(u64, u64);
-/* commutative by construction: arguments ordered by bit pattern (inline functions, so operands are evaluated once) */
-static inline u8 MUL_u8(u8 a, u8 b) { return a <= b ? __CPROVER_uninterpreted_mul8(a, b) : __CPROVER_uninterpreted_mul8(b, a); }
-static inline u16 MUL_u16(u16 a, u16 b) { return a <= b ? __CPROVER_uninterpreted_mul16(a, b) : __CPROVER_uninterpreted_mul16(b, a); }
-static inline u32 MUL_u32(u32 a, u32 b) { return a <= b ? __CPROVER_uninterpreted_mul32(a, b) : __CPROVER_uninterpreted_mul32(b, a); }
-static inline u64 MUL_u64(u64 a, u64 b) { return a <= b ? __CPROVER_uninterpreted_mul64(a, b) : __CPROVER_uninterpreted_mul64(b, a); }
+/* Uninterpreted multiplier, normalised so that the facts every two's-complement multiplier satisfies hold by construction:
+ * commutativity (arguments ordered) and (-a)*b == -(a*b) (mod 2^W) (arguments made non-negative, sign restored).
+ * Sound: the hardware multiplier restricted to normalised arguments is one interpretation of the symbol. */
+#define LL_UFMUL(W) static inline u##W MUL_u##W(u##W a, u##W b) { \
+  u##W sa = (u##W)(a >> (W - 1)), sb = (u##W)(b >> (W - 1)); \
+  u##W x = sa ? (u##W)(0 - a) : a, y = sb ? (u##W)(0 - b) : b; \
+  u##W mn = (u##W)((u##W)1 << (W - 1)); \
+  u##W r = (x == 0 || y == 0) ? (u##W)0 : x == 1 ? y : y == 1 ? x /* exact facts: 0*k = 0, 1*k = k */ \
+         : x == mn ? ((y & 1) ? mn : (u##W)0) : y == mn ? ((x & 1) ? mn : (u##W)0) /* MIN * k is exactly MIN or 0 */ \
+         : x <= y ? __CPROVER_uninterpreted_mul##W(x, y) : __CPROVER_uninterpreted_mul##W(y, x); \
+  return (sa ^ sb) ? (u##W)(0 - r) : r; }
+LL_UFMUL(8) LL_UFMUL(16) LL_UFMUL(32) LL_UFMUL(64)
 #define LL_UFDIV(W) \
   u##W __CPROVER_uninterpreted_udiv##W(u##W, u##W); u##W __CPROVER_uninterpreted_sdiv##W(u##W, u##W); \
   u##W __CPROVER_uninterpreted_urem##W(u##W, u##W); u##W __CPROVER_uninterpreted_srem##W(u##W, u##W);
